@@ -48,6 +48,14 @@ Theorem C17_translation :
 Proof. intros; split; [apply voxel_area_shift | apply voxel_centroid_shift]. Qed.
 Print Assumptions C17_translation.
 
+(* any magnitude: scaling every coordinate by k multiplies the area by k^2 and moves the centroid with the polygon
+   (stated on the stored vertex list) *)
+Theorem C17_scaling :
+  forall k l, area (map (scl k) l) == k * k * area l /\
+              (~ k == 0 -> oeq (centroid (map (scl k) l)) (option_map (scl k) (centroid l))).
+Proof. intros; split; [apply area_scale | apply centroid_scale]. Qed.
+Print Assumptions C17_scaling.
+
 (* triangles and rectangles: the elementary formulas *)
 Theorem C17_triangle_exact :
   forall a b c, area [a; b; c] == (1 # 2) * Qabs (tri2 a b c) /\
